@@ -67,6 +67,11 @@ def gen_cases(rng, tier):
                 r = rng.randrange(10)
                 c["sources"].append(gen_dir(rng, hostile) if r < 5 else {"t": "missing"} if r == 9 and hostile else
                                     {"t": "file", "n": rng.choice(NAMES).hex(), "c": rng.choice(CONTENTS).hex()})
+            # the same source given again (From(a, dir, a)): it is converted again, in its place
+            if c["sources"] and rng.randrange(3) == 0:
+                k = rng.randrange(len(c["sources"]))
+                if c["sources"][k]["t"] in ("dir", "file"):
+                    c["sources"].insert(rng.randrange(len(c["sources"]) + 1) if False else len(c["sources"]), {"t": "again", "of": k})
         c["i"] = i
         cases.append(c)
     return cases
@@ -94,7 +99,9 @@ def kind_term(e):
     return {"dir": "KDir", "linkdir": "KDir", "dangling": "KDangling", "fifo": "KSpecial"}[k]
 
 
-def src_term(s):
+def src_term(s, all_sources=None):
+    if s["t"] == "again":
+        return src_term(all_sources[s["of"]], all_sources)
     if s["t"] == "dir":
         return "(SDir [%s])" % "; ".join("(%s, %s)" % (vlib.coq_str(bytes.fromhex(e["n"])), kind_term(e)) for e in s["entries"])
     if s["t"] == "file":
@@ -112,7 +119,7 @@ def term(c, r):
         res = "(IErr %d)" % r.get("cls", 9)
     else:
         res = "IPanic"
-    return "mk [%s] [%s] %s [%s] %s %s" % (mt, tab, str(bool(c["addlist"])).lower(), "; ".join(src_term(s) for s in c["sources"]), res,
+    return "mk [%s] [%s] %s [%s] %s %s" % (mt, tab, str(bool(c["addlist"])).lower(), "; ".join(src_term(s, c["sources"]) for s in c["sources"]), res,
                                           str(bool(r.get("det"))).lower())
 
 
